@@ -18,11 +18,17 @@ import (
 
 // C16 — Parsing is zero-copy and allocation-free in steady state.
 
-const c16Rule = "well-formed frames of every PayloadID class and address family from the frame generator, with the source rewritten to one of six situations (already tracked client, own MAC, router MAC with global source, multicast source, off-LAN source, newly seen client); oracle 1: every view returned by Parse is the input buffer at the reference offset (pointer identity, write-through in both directions, nothing beyond the frame); oracle 2: testing.AllocsPerRun(50, Parse) == 0 once the source is tracked. non-trivial = a frame whose reference decoding entered the network layer; distinct by (class, situation, hash of the bytes)"
+const c16Rule = "well-formed frames of every PayloadID class and address family from the frame generator, with the source rewritten to one of six situations (already tracked client, own MAC, router MAC with global source, multicast source, off-LAN source, newly seen client); oracle 1: every view returned by Parse is the input buffer at the reference offset (pointer identity, write-through in both directions, nothing beyond the frame); oracle 2: testing.AllocsPerRun(50, Parse) == 0 once the source is tracked, also for a station alternating between 2..5 of its own addresses (IPv4, link-local, two global, ULA). non-trivial = a frame whose reference decoding entered the network layer; distinct by (class, situation, hash of the bytes)"
 
 type c16Case struct {
 	Data      drv.Hex `json:"data"`
 	Situation string  `json:"situation"`
+}
+
+type c16Rotation struct {
+	Addrs  []int `json:"addrs"` // 0 IPv4, 1 link-local, 2 and 3 global, 4 ULA
+	Client int   `json:"client"`
+	Rounds int   `json:"rounds"`
 }
 
 var c16Situations = []string{"tracked", "own", "router-global", "multicast-src", "offlan", "new"}
@@ -195,4 +201,52 @@ func TestC16(t *testing.T) {
 		b := ref.Eth(w.RouterMAC, w.Clients[0], 0x0800, ref.IP4(ref.IP4Hdr{TotalLen: -1, TTL: 64, Proto: 17, Checksum: -1, Src: [4]byte{192, 168, 0, 5}, Dst: [4]byte{192, 168, 0, 255}}, ref.UDP(sp, dp, -1, 0, []byte("0123456789"))))
 		return c16Case{Data: c16Apply(w, b, sit), Situation: sit}
 	}, func(tb drv.TB, c c16Case) { c16Run(tb, rec, "port-classes", c) })
+	// a tracked station that uses several addresses at once (IPv4, link-local, two global IPv6 addresses as with
+	// RFC 4941 temporary addresses, ULA): frames alternating between them are steady state too
+	drv.Prop(t, rec, "tracked-rotation", 300, 6000, func(t *rapid.T) c16Rotation {
+		all := []int{0, 1, 2, 3, 4}
+		order := rapid.Permutation(all).Draw(t, "order")
+		n := rapid.IntRange(2, 5).Draw(t, "naddrs")
+		return c16Rotation{Addrs: order[:n], Client: rapid.IntRange(0, 3).Draw(t, "client"), Rounds: rapid.IntRange(1, 3).Draw(t, "rounds")}
+	}, func(tb drv.TB, c c16Rotation) {
+		rec.Eval()
+		drv.Begin("C16", "tracked-rotation", 'J', mustJSON(c), 30*time.Second)
+		defer drv.End()
+		s, _ := newSession(defaultNIC())
+		defer closeSession(s)
+		mac := w.Clients[c.Client%4]
+		var frames [][]byte
+		for _, a := range c.Addrs {
+			var b []byte
+			switch a {
+			case 0:
+				b = ref.Eth(w.RouterMAC, mac, 0x0800, ref.IP4(ref.IP4Hdr{TotalLen: -1, TTL: 64, Proto: 17, Checksum: -1, Src: [4]byte{192, 168, 0, byte(60 + c.Client)}, Dst: [4]byte{192, 168, 0, 11}}, ref.UDP(40000, 9999, -1, 0, []byte("x"))))
+			default:
+				src := netip.MustParseAddr([]string{"", "fe80::60", "2001:db8::60", "2001:db8::1:60", "fd00::60"}[a]).As16()
+				src[14] = byte(c.Client)
+				b = ref.Eth(w.RouterMAC, mac, 0x86dd, ref.IP6(ref.IP6Hdr{PayloadLen: -1, Next: 17, HopLimit: 64, Src: src, Dst: netip.MustParseAddr("2001:db8::1").As16()}, ref.UDP(40000, 9999, -1, 0, []byte("x"))))
+			}
+			buf := make([]byte, len(b), packet.EthMaxSize)
+			copy(buf, b)
+			frames = append(frames, buf)
+		}
+		round := func() {
+			for k := 0; k < c.Rounds; k++ {
+				for _, f := range frames {
+					s.Parse(f)
+				}
+			}
+		}
+		round()
+		round() // every address is tracked and online now
+		measure := func() float64 { return testing.AllocsPerRun(20, round) }
+		if a := measure(); a != 0 {
+			if a2, a3 := measure(), measure(); a2 != 0 && a3 != 0 {
+				rec.Violation(tb, "tracked-rotation", "c16-allocs-rotation", c, "a tracked station alternating between %d of its addresses costs %.0f/%.0f/%.0f allocations per round of %d frames", len(frames), a, a2, a3, len(frames)*c.Rounds)
+				return
+			}
+		}
+		rec.NonTrivial(drv.HashJSON(c), func() interface{} { return c })
+	})
+
 }
